@@ -1,11 +1,301 @@
-import JaqVerif.C16.Load
-import JaqVerif.C16.Search
-import JaqVerif.C16.Inline
+/-
+C16 — a program split into modules computes what its inlined form computes.
+Property theorems about the model in `JaqVerif/C16/{Load,Search,Inline}.lean`
+(helper lemmas: `Lemmas/C16Load.lean`, `Lemmas/C16Resolve.lean`).
+
+Not proved (kept as a comment; checked per generated graph on the real code by checks/c16.py):
+
+  theorem run_modules_eq_run_inlined (g : Graph S) (vv : VarVals) (dataOf …) :
+      acyclic g → compileErrors g = [] →
+      runGraph g vv = runGraph (singleModule (inline g dataOf)) { vv with imported := [] }
+
+  what is missing: a simulation between the module-indexed environments of `eval` and the
+  nested closures of the inlined term (C01's `EnvRel` extended by module entries).  The
+  look-up step of that simulation is `resolve_modules_eq_resolve_inlined_partial` below.
+-/
+import JaqVerif.Lemmas.C16Load
+import JaqVerif.Lemmas.C16Resolve
+import JaqVerif.Lemmas.C16Search
 
 namespace Jaq.C16
 
-/-- F-16 witness: `include "m.txt";` looks for `m.jq` -/
-theorem extension_replaced_witness :
-    setExtension (parsePath "m.txt".toList) "jq".toList = parsePath "m.jq".toList := by decide
+/-! ## Loader -/
+
+/-- For ALL readers whose answers stay inside a finite set of paths `U` (any module graph, cyclic
+    or not, any sharing): with `fuel > |U|` the loader finishes (the fuel of the model never
+    runs out — the Rust recursion ends), every path is stored at most once, the `open` stack is
+    empty again, and a successful result lists every dependency path once. -/
+theorem load_terminates_and_dedups {P S B : Type} [BEq P] [LawfulBEq P] (read : Reader P S B) (U : List P)
+    (hU : ∀ parent s p src, read parent s = .ok (p, src) → p ∈ U)
+    (fuel : Nat) (hfuel : U.length < fuel) (dflt : P) (prelude : B) (mainPath : P) (mainSrc : Src S B) :
+    ∃ st res, load read fuel dflt prelude mainPath mainSrc = some (st, res) ∧
+      (st.mods.map (·.1)).Nodup ∧ st.opened = [] ∧
+      (∀ deps main, res = .ok deps main → (deps.map (·.1)).Nodup) := by
+  obtain ⟨⟨st, res⟩, h⟩ := load_total read U hU fuel hfuel dflt prelude mainPath mainSrc
+  obtain ⟨h1, h2, h3⟩ := load_facts read fuel dflt prelude mainPath mainSrc st res h
+  exact ⟨st, res, h, h1, h2, fun deps main hr => (h3 deps main hr).1⟩
+
+/-- hypotheses of `load_terminates_and_dedups` are satisfiable: a two-file cycle `a ⇄ b` -/
+example : ∃ st errs, load (P := String) (S := String) (B := Unit)
+    (fun _ s => if s = "a" then .ok ("a", .ok [⟨"b", none⟩] ()) else if s = "b" then .ok ("b", .ok [⟨"a", none⟩] ())
+      else .error "file not found") 3 "" () "main" (.ok [⟨"a", none⟩] ()) = some (st, .err errs) ∧
+    errs = [("b", .io [("a", circularMsg)])] := by
+  refine ⟨_, _, rfl, ?_⟩
+  decide
+
+/-- A directive that leads to a file which is being processed (it is on the `open` stack and
+    not stored yet) is answered at once with the error "circular include/import": no further
+    read, no recursion, state unchanged (except the trace).  Never loops. -/
+theorem cycle_is_error {P S B : Type} [BEq P] [LawfulBEq P] (read : Reader P S B) (fuel : Nat) (parent : P)
+    (st : LState P S B) (s : S) (path : P) (src : Src S B)
+    (hread : read parent s = .ok (path, src)) (hopen : path ∈ st.opened) (hnew : path ∉ st.mods.map (·.1)) :
+    find read (fuel + 1) parent st s =
+      some ({ st with trace := st.trace ++ [(parent, s)] }, .error circularMsg) :=
+  find_open read fuel parent st s path src hread hopen hnew
+
+/-- A successful load contains no failed module, and its dependency relation is well-founded:
+    every module refers only to modules with a smaller index, the main module only to loaded
+    ones.  Hence whenever the files form a cycle, `load` answers `err` (together with
+    `cycle_is_error`: the inner module gets `Error::Io`, and one failed module fails the load). -/
+theorem loaded_graph_is_acyclic {P S B : Type} [BEq P] [LawfulBEq P] (read : Reader P S B) (fuel : Nat) (dflt : P)
+    (prelude : B) (mainPath : P) (mainSrc : Src S B) (st : LState P S B) (deps : List (P × Module S B))
+    (main : P × Module S B)
+    (h : load read fuel dflt prelude mainPath mainSrc = some (st, .ok deps main)) :
+    collectErr st.mods = [] ∧
+    (∀ (i : Nat) (p : P) (m : Module S B), deps[i]? = some (p, m) → ∀ e ∈ m.mods, e.1 < i) ∧
+    (∀ e ∈ main.2.mods, e.1 < deps.length) := by
+  obtain ⟨_, _, h3⟩ := load_facts read fuel dflt prelude mainPath mainSrc st _ h
+  exact (h3 deps main rfl).2
+
+/-! ## Search -/
+
+/-- the candidates are: the directive's `search` paths (prefix-expanded, relative to the
+    directory of the importing file) in their order, then the library paths (prefix-expanded,
+    relative to the working directory when canonicalised) in their order; the file name with
+    the extension rule applied is appended to each -/
+theorem candidates_meta_before_libs (env : SearchEnv) (pf rel : RPath) (metas libs : List RPath) (ext : FName) :
+    candidates env pf rel metas libs ext =
+      (metas.map fun p => RPath.join (RPath.join (parentDir pf) (expand env p)) (applyExt env rel ext)) ++
+      (libs.map fun p => RPath.join (expand env p) (applyExt env rel ext)) := by
+  simp [candidates, List.map_append, List.map_map, Function.comp_def]
+
+/-- `find` answers `q` iff some candidate canonicalises to the regular file `q` and no earlier
+    candidate (in the documented order) canonicalises to a regular file -/
+theorem find_first_existing_in_documented_order (env : SearchEnv) (fs : FS) (pf rel : RPath)
+    (metas libs : List RPath) (ext : FName) (h : RPath.isAbs rel = false) (q : List FName) :
+    findFile env fs pf rel metas libs ext = .ok q ↔
+      ∃ before c after, candidates env pf rel metas libs ext = before ++ c :: after ∧
+        hit fs env.cwd c = some q ∧ ∀ x ∈ before, hit fs env.cwd x = none := by
+  simp only [findFile, h, Bool.false_eq_true, ↓reduceIte]
+  constructor
+  · intro hf
+    split at hf
+    · rename_i q' hq
+      rw [List.findSome?_eq_some_iff] at hq
+      obtain ⟨l1, a, l2, h1, h2, h3⟩ := hq
+      cases hf
+      exact ⟨l1, a, l2, h1, h2, h3⟩
+    · cases hf
+  · rintro ⟨l1, a, l2, h1, h2, h3⟩
+    have : (candidates env pf rel metas libs ext).findSome? (hit fs env.cwd) = some q := by
+      rw [List.findSome?_eq_some_iff]; exact ⟨l1, a, l2, h1, h2, h3⟩
+    simp [this]
+
+/-- `~` and `$ORIGIN` at the start of a search path are replaced by the home directory and the
+    directory of the executable -/
+theorem home_and_origin_expanded (env : SearchEnv) (home origin : RPath) (rest : RPath)
+    (hh : env.home = some home) (ho : env.origin = some origin) :
+    expand env (.normal "~".toList :: rest) = RPath.join home rest ∧
+    expand env (.normal "$ORIGIN".toList :: rest) = RPath.join origin rest := by
+  constructor
+  · simp [expand, expandPrefix, RPath.stripPrefix1, hh]
+  · simp [expand, expandPrefix, RPath.stripPrefix1, ho]
+
+/-- every path text that starts with `/` is absolute … -/
+theorem slash_is_absolute (s : List Char) : RPath.isAbs (parsePath ('/' :: s)) = true := by
+  simp [parsePath, RPath.isAbs]
+
+/-- … and absolute paths in a directive are refused whatever exists in the file system -/
+theorem absolute_refused (env : SearchEnv) (fs : FS) (pf rel : RPath) (metas libs : List RPath) (ext : FName)
+    (h : RPath.isAbs rel = true) : findFile env fs pf rel metas libs ext = .error nonRelativeMsg := by
+  simp [findFile, h]
+
+/-
+  FALSE for the code as it is (finding F-16):
+
+  theorem extension_only_when_missing (p : RPath) (n ext e : FName) :
+      p.getLast? = some (.normal n) → extensionOf n = some e → setExtension p ext = p
+
+  `rel.set_extension(ext)` replaces a given extension.  Proved instead: the half that holds
+  (`_partial`), a witness that the other half fails, and the full statement for the repair
+  (`setExtensionIfMissing`, switch `SearchEnv.extOnlyWhenMissing`).
+-/
+
+/-- when the directive gives no extension, `.jq` / `.json` is appended to the name as it is -/
+theorem extension_only_when_missing_partial (p : RPath) (n ext : FName) (hl : p.getLast? = some (.normal n))
+    (h : extensionOf n = none) :
+    setExtension p ext = p.dropLast ++ [.normal (n ++ '.' :: ext)] := by
+  simp [setExtension, hl, setExtName, stem_of_no_ext n h]
+
+/-- F-16: a given extension is NOT kept: `include "m.txt";` looks for `m.jq` -/
+theorem extension_only_when_missing_fails :
+    ¬ (∀ (p : RPath) (n ext e : FName), p.getLast? = some (.normal n) → extensionOf n = some e →
+        setExtension p ext = p) := by
+  intro h
+  have := h (parsePath "m.txt".toList) "m.txt".toList "jq".toList "txt".toList (by decide) (by decide)
+  revert this
+  decide
+
+/-- the proposed repair satisfies the full statement -/
+theorem extension_only_when_missing_fixed (p : RPath) (n ext : FName) (hl : p.getLast? = some (.normal n)) :
+    (∀ e, extensionOf n = some e → setExtensionIfMissing p ext = p) ∧
+    (extensionOf n = none → setExtensionIfMissing p ext = p.dropLast ++ [.normal (n ++ '.' :: ext)]) := by
+  constructor
+  · intro e h; simp [setExtensionIfMissing, hl, h]
+  · intro h; simp [setExtensionIfMissing, hl, h, setExtName, stem_of_no_ext n h]
+
+example : setExtension (parsePath "d.cbor".toList) "json".toList = parsePath "d.json".toList := by decide
+example : setExtensionIfMissing (parsePath "d.cbor".toList) "json".toList = parsePath "d.cbor".toList := by decide
+example : setExtension (parsePath "lib.d/m".toList) "jq".toList = parsePath "lib.d/m.jq".toList := by decide
+
+/-! ## Name resolution -/
+
+/-- `Compiler::var` against the meaning of `$x`: under ANY local slots (variables, labels, filter
+    parameters — any number of binders), any data imports of any modules and any globals, the
+    computed index points at the slot of: the innermost local `$x`, else the latest data import
+    *of the module being compiled* named `$x`, else the latest global `$x`; and the compiler
+    reports `Undefined::Var` exactly when there is none. -/
+theorem var_index_correct {V : Type} (locals : List (Bind × V)) (imp : List ((String × Nat) × V)) (cur : Nat)
+    (glob : List (String × V)) (x : String) :
+    (varIndex (locals.map (·.1)) (imp.map (·.1)) cur (glob.map (·.1)) x = none →
+        specVar locals imp cur glob x = none) ∧
+    (∀ i, varIndex (locals.map (·.1)) (imp.map (·.1)) cur (glob.map (·.1)) x = some i →
+        ∃ v, (envOf locals imp glob)[i]? = some v ∧ specVar locals imp cur glob x = some v) := by
+  have hL := lastPos_spec (V := V) (.var x) locals
+  have hI := scanImported_spec (V := V) cur x imp.reverse (locals.map (·.1)).length
+  have hG := scanGlobals_spec (V := V) x glob.reverse
+  simp only [List.map_reverse] at hI hG
+  unfold varIndex specVar
+  constructor
+  · intro h
+    split at h
+    · cases h
+    · rename_i hl
+      rw [hL.1 hl]
+      split at h
+      · cases h
+      · rename_i i hi
+        obtain ⟨_, h2⟩ := hI.2 i hi
+        rw [h2]
+        simp only
+        rw [(hG i).2 h]; rfl
+  · intro i h
+    split at h
+    · rename_i v hl
+      cases h
+      obtain ⟨e, he1, he2⟩ := hL.2 v hl
+      refine ⟨e.2, ?_, by rw [he1]⟩
+      have hle := lastPos_le _ _ v hl
+      unfold envOf
+      rw [List.getElem?_append_left (by simp only [List.length_map] at hle ⊢; omega)]
+      exact he2
+    · rename_i hl
+      rw [hL.1 hl]
+      split at h
+      · rename_i j hj
+        cases h
+        obtain ⟨hle, e, he1, he2⟩ := hI.1 _ hj
+        refine ⟨e.2, ?_, by rw [he1]⟩
+        unfold envOf
+        rw [List.getElem?_append_right (by simpa using hle)]
+        have hlt : i - (locals.map (·.2)).length < ((imp.map (·.2)).reverse).length := by
+          have := (List.getElem?_eq_some_iff.mp he2).1
+          simpa using this
+        rw [List.getElem?_append_left hlt]
+        simpa using he2
+      · rename_i j hj
+        obtain ⟨h1, h2⟩ := hI.2 j hj
+        rw [h2]
+        simp only
+        obtain ⟨hle, e, he1, he2⟩ := (hG j).1 i h
+        refine ⟨e.2, ?_, by rw [he1]; rfl⟩
+        unfold envOf
+        rw [List.getElem?_append_right (by simp at h1 ⊢; omega)]
+        rw [List.getElem?_append_right (by simp at h1 ⊢; omega)]
+        have : i - (locals.map (·.2)).length - ((imp.map (·.2)).reverse).length = i - j := by
+          simp at h1 ⊢; omega
+        rw [this]; exact he2
+
+/-- a module definition is called with `skip = vars.total`: its body starts from the environment
+    without any local slot of the caller -/
+theorem callee_env_drops_caller_locals {V : Type} (locals : List (Bind × V)) (imp : List ((String × Nat) × V))
+    (glob : List (String × V)) :
+    (envOf locals imp glob).drop (locals.map (·.1)).length = envOf [] imp glob := by
+  simp [envOf]
+
+/-- `call_mod_id`: the definition found is the LAST one of the module with that name and arity -/
+theorem later_defs_shadow (defs : List Sig) (name : String) (ar k : Nat) (h : callModId defs name ar = some k) :
+    (∃ s, defs[k]? = some s ∧ s.matches name ar = true) ∧
+    ∀ j s, k < j → defs[j]? = some s → s.matches name ar = false :=
+  findLastIdx_spec _ defs k h
+
+/-- among included modules the one included LAST wins, and only if it does not define the name
+    the earlier ones are consulted -/
+theorem later_include_shadows (mm : List (List Sig)) (inc : List Nat) (mid : Nat) (defs : List Sig)
+    (name : String) (ar : Nat) (hd : mm[mid]? = some defs) :
+    (∀ k, callModId defs name ar = some k → callIncluded mm (inc ++ [mid]) name ar = .found mid k) ∧
+    (callModId defs name ar = none → callIncluded mm (inc ++ [mid]) name ar = callIncluded mm inc name ar) := by
+  constructor
+  · intro k hk; simp [callIncluded, callIncludedRev, hd, hk]
+  · intro hk; simp [callIncluded, callIncludedRev, hd, hk]
+
+/-- imported definitions are reachable only as `name::f`, included ones only unqualified:
+    an unqualified call resolves into a module the header *includes*, a qualified one into a
+    module the header *imports under that name* -/
+theorem imports_qualified_includes_plain (mm : List (List Sig)) (mods : List (Nat × Option String))
+    (m name : String) (ar mid k : Nat) :
+    (callIncluded mm (includedOf mods) name ar = .found mid k → (mid, none) ∈ mods) ∧
+    (callMod mm (importedOf mods) m name ar = .found mid k → (mid, some m) ∈ mods) := by
+  constructor
+  · intro h
+    have := (callIncludedRev_found mm name ar _ mid k h).1
+    exact (includedOf_mem mods mid).mp (List.mem_reverse.mp this)
+  · intro h
+    exact (importedOf_mem mods mid m).mp (callMod_found mm _ m name ar mid k h).1
+
+/-- A module cannot see the module that loads it (nor any module it does not name): if the
+    header refers only to smaller indices (true after `load`: `loaded_graph_is_acyclic`), a call
+    resolves to a module with a smaller index, `mod_map[mid]` is never out of range, and the
+    result is the same whatever the definitions of all other modules — the loader's included —
+    are. -/
+theorem module_cannot_see_loader (mm mm' : List (List Sig)) (mods : List (Nat × Option String)) (cur : Nat)
+    (hsmall : ∀ e ∈ mods, e.1 < cur) (hcur : cur ≤ mm.length)
+    (hagree : ∀ i, i < cur → mm[i]? = mm'[i]?) (name : String) (ar : Nat) :
+    callIncluded mm (includedOf mods) name ar = callIncluded mm' (includedOf mods) name ar ∧
+    callIncluded mm (includedOf mods) name ar ≠ .oob ∧
+    (∀ mid k, callIncluded mm (includedOf mods) name ar = .found mid k → mid < cur) := by
+  have hinc : ∀ i ∈ (includedOf mods).reverse, i < cur := by
+    intro i hi
+    exact hsmall (i, none) ((includedOf_mem mods i).mp (List.mem_reverse.mp hi))
+  refine ⟨?_, ?_, ?_⟩
+  · exact callIncludedRev_congr mm mm' name ar _ (fun i hi => hagree i (hinc i hi))
+  · exact callIncludedRev_no_oob mm name ar _ (fun i hi => Nat.lt_of_lt_of_le (hinc i hi) hcur)
+  · intro mid k h
+    exact hinc mid (callIncludedRev_found mm name ar _ mid k h).1
+
+/-- One look-up step of the inlining refinement: resolving an unqualified call through the
+    include list of the module (the loop over `included_mods` of `Compiler::call`) finds the
+    same definition as ordinary lexical scoping does in the single program in which the
+    includes are replaced, in their order, by the definitions they bring in.
+    (`_partial`: one step; the simulation over whole programs is checked on the real code.) -/
+theorem resolve_modules_eq_resolve_inlined_partial (mm : List (List Sig)) (inc : List Nat)
+    (hin : ∀ i ∈ inc, i < mm.length) (name : String) (ar : Nat) :
+    callIncluded mm inc name ar = lookupOf (lexical (broughtIn mm inc) name ar) := by
+  have := resolve_rev mm name ar inc.reverse (fun i hi => hin i (List.mem_reverse.mp hi))
+  simpa [callIncluded] using this
+
+example : callIncluded [[⟨"f", 0⟩], [⟨"f", 0⟩, ⟨"g", 1⟩, ⟨"f", 0⟩], [⟨"g", 1⟩]] [0, 1, 2] "f" 0 = .found 1 2 := by decide
+example : lexical (broughtIn [[⟨"f", 0⟩], [⟨"f", 0⟩, ⟨"g", 1⟩, ⟨"f", 0⟩], [⟨"g", 1⟩]] [0, 1, 2]) "f" 0 = some (1, 2) := by
+  decide
 
 end Jaq.C16
